@@ -38,10 +38,12 @@ def cases(thorough):
                        "np.add", "np.multiply", "np.concatenate", "np.isfinite", "reshape", "getitem_slice", "getitem_mask", "copy",
                        # the same object in two roles
                        "alias:concatenate_vv", "alias:concatenate_vwv", "alias:stack_vv", "alias:hstack_wvwv", "alias:add_vv", "alias:mul_vv", "alias:sub_vv",
-                       "alias:truediv_vv", "alias:np.add_vv", "alias:lt_vv", "alias:vstack_vv"):
+                       "alias:truediv_vv", "alias:np.add_vv", "alias:lt_vv", "alias:vstack_vv",
+                       # an Array on the left of a Vector: plain and augmented operators (the result is the Vector of component results)
+                       "Aleft:add", "Aleft:sub", "Aleft:mul", "Aleft:truediv", "Aleft:iadd", "Aleft:isub", "Aleft:imul", "Aleft:itruediv", "Aleft:lt"):
             for (u1, u2) in UNIT_PAIRS:
                 for dt in dts:
-                    for sh in (["3", "2x3"] if (opname in ("np.concatenate", "getitem_slice", "getitem_mask", "reshape") or opname.startswith("alias:")) else shapes):
+                    for sh in (["3", "2x3"] if (opname in ("np.concatenate", "getitem_slice", "getitem_mask", "reshape") or opname.startswith(("alias:", "Aleft:"))) else shapes):
                         yield {"block": "other", "nvec": nvec, "op": opname, "u1": u1, "u2": u2, "dt": dt, "shape": sh}
         for opname in ("and", "or", "xor", "invert"):
             for kind in ("Vector", "Array", "bool"):
@@ -131,7 +133,18 @@ def compare_lifted(acc, idx, c, label, vec_result, comp_results, must_raise=Fals
         acc.violation(f"C09:result-component-count:{label}", idx, c, {"got": len(got)})
         return "bad"
     for i, (g, (_, w)) in enumerate(zip(got, comp_results)):
-        if not same(g, w):
+        if label.startswith("Aleft:"):
+            # Array op Vector is answered by the Vector's reflected operator: the unit the result is written in may be the Vector's;
+            # the physical quantity must be the component result
+            try:
+                pg, dg_, tg = _arr.phys(g)
+                pw, dw_, tw = _arr.phys(w)
+                ok = tuple(dg_) == tuple(dw_) and np.shape(pg) == np.shape(pw) and _arr.close(pg, pw, (2e-6 if c.get("dt") == "f4" else 1e-12) + tg + tw)
+            except Exception:
+                ok = False
+        else:
+            ok = same(g, w)
+        if not ok:
             acc.violation(f"C09:component-differs-from-Array-operation:{label}", idx, c,
                           {"component": "xyz"[i], "got": [np.asarray(g.values).ravel()[:3].tolist(), str(g.unit), str(g.dtype)],
                            "expected": [np.asarray(w.values).ravel()[:3].tolist(), str(w.unit), str(w.dtype)]})
@@ -236,6 +249,13 @@ def _run_case(acc, idx, c):
             "alias:sub_vv": (lambda: v - v, lambda a, b: a - a), "alias:truediv_vv": (lambda: v / v, lambda a, b: a / a),
             "alias:np.add_vv": (lambda: np.add(v, v), lambda a, b: np.add(a, a)), "alias:lt_vv": (lambda: v < v, lambda a, b: a < a),
         }
+        if name.startswith("Aleft:"):
+            # the left operand: an Array in the Vector's second unit (converted, or refused, exactly as for Array op Array)
+            L0 = _arr.values_for(shape, np.float64, 1, 1) + 7.0
+            mk = lambda: A_(L0.copy(), unit=c["u2"])  # noqa: E731
+            bop = {"add": operator.add, "sub": operator.sub, "mul": operator.mul, "truediv": operator.truediv, "lt": operator.lt,
+                   "iadd": operator.iadd, "isub": operator.isub, "imul": operator.imul, "itruediv": operator.itruediv}[name.split(":")[1]]
+            table[name] = (lambda: bop(mk(), v), lambda a, b: bop(mk(), a))
         fv, fa = table[name]
         vres = outcome(fv)
         cres = [outcome(lambda a=a, b=b: fa(a, b)) for a, b in zip(arrs, warrs)]
